@@ -850,24 +850,44 @@ func checkFailureBranchKv(p *Prog, r *Roles, res *Result, f *ssa.Function, casFa
 			continue
 		}
 		for _, ins := range b.Instrs {
-			al, ok := ins.(*ssa.Alloc)
-			if !ok || !types.Identical(al.Type().(*types.Pointer).Elem(), kvType) {
+			// a key-value literal, or the call of a local builder of key-values
+			kvVal, isVal := ins.(ssa.Value)
+			if !isVal || !types.Identical(kvVal.Type(), types.NewPointer(kvType)) {
+				continue
+			}
+			switch ins.(type) {
+			case *ssa.Alloc, *ssa.Call:
+			default:
+				continue
+			}
+			var fieldVals []struct {
+				name string
+				val  ssa.Value
+			}
+			built := false
+			kst := kvType.Underlying().(*types.Struct)
+			for i := 0; i < kst.NumFields(); i++ {
+				if n := kst.Field(i).Name(); n == "Value" || n == "Revision" {
+					if fv, ok := p.builtFieldValue(kvVal, kst.Field(i)); ok {
+						built = true
+						fieldVals = append(fieldVals, struct {
+							name string
+							val  ssa.Value
+						}{n, fv})
+					}
+				}
+			}
+			if !built {
 				continue
 			}
 			n++
 			construct := fmt.Sprintf("%s: key-value of the failed-condition answer #%d", funcName(f), n)
 			// Value / Revision fields
 			good, why := true, ""
-			for _, ref := range *al.Referrers() {
-				fa, ok := ref.(*ssa.FieldAddr)
-				if !ok || (fieldOf(fa).Name() != "Value" && fieldOf(fa).Name() != "Revision") {
-					continue
-				}
-				for _, r2 := range *fa.Referrers() {
-					st, ok := r2.(*ssa.Store)
-					if !ok {
-						continue
-					}
+			for _, fvv := range fieldVals {
+				fname := fvv.name
+				st := struct{ Val ssa.Value }{fvv.val}
+				{
 					c, _, ok := extractOf(p.resolveDeep(st.Val))
 					fresh := false
 					if ok {
@@ -902,14 +922,14 @@ func checkFailureBranchKv(p *Prog, r *Roles, res *Result, f *ssa.Function, casFa
 						}
 					}
 					if !fallback {
-						good, why = false, "field "+fieldOf(fa).Name()+" is not taken from a read made after the failed write"
+						good, why = false, "field "+fname+" is not taken from a read made after the failed write"
 					}
 				}
 			}
 			if good {
-				res.ok("C16-R5", construct, p.pos(al.Pos()), "values come from the point read that follows the failed write (or from the earlier read only if that re-read failed)")
+				res.ok("C16-R5", construct, p.pos(ins.Pos()), "values come from the point read that follows the failed write (or from the earlier read only if that re-read failed)")
 			} else {
-				res.bad("C16-R5", construct, p.pos(al.Pos()), "the failure branch answers with a key-value read before the write was attempted: after a concurrent update it reports a stale value with the caller's own expected revision, which etcd can never answer ("+why+")")
+				res.bad("C16-R5", construct, p.pos(ins.Pos()), "the failure branch answers with a key-value read before the write was attempted: after a concurrent update it reports a stale value with the caller's own expected revision, which etcd can never answer ("+why+")")
 			}
 		}
 	}
